@@ -3,7 +3,7 @@
    extracted inductives (no Extract Constant, no native integers). *)
 Require Extraction.
 Require Import ExtrOcamlBasic.
-From CV Require Import Base.Geom Engine.Magic Engine.Encoding Chess.Rules Chess.Fen.
+From CV Require Import Base.Geom Engine.Magic Engine.Encoding Chess.Rules Chess.Fen Engine.PositionRep Engine.RepAbs Chess.History.
 
 Extraction "model.ml"
   (* geometry specs *)
@@ -16,4 +16,9 @@ Extraction "model.ml"
   legal_moves legal make_move valid_position in_check checkmate stalemate play legal_line
   forced_mate_within forced_loss_within initial_position attacked king_sq is_capture
   (* text *)
-  fen_print fen_parse uci_print uci_parse.
+  fen_print fen_parse uci_print uci_parse
+  (* engine representation *)
+  rep_of_position rep_abs enc rep_parse_uci do_move undo_move do_null_move undo_null_move get_key
+  is_repeated threefold rule50 enough_material scratch_key
+  (* history spec *)
+  same_position occurred_before occurred_three_times fifty_moves insufficient_material.
